@@ -110,7 +110,7 @@ class MultivariateNormal(TMultivariateNormal, Distribution):
 
     def _new_like(self, mean: Tensor, covariance_matrix: Union[Tensor, LinearOperator]) -> MultivariateNormal:
         # A distribution of the same kind as self: sub-classes pass on their own construction options
-        return self.__class__(mean, covariance_matrix)
+        return self.__class__(mean=mean, covariance_matrix=covariance_matrix)
 
     @property
     def base_sample_shape(self) -> torch.Size:
